@@ -329,10 +329,14 @@ def run_history(ctx, pool, gold, limit, hno, alts):
     refused_idxs = [i for i in idxs if 'refused' in gold[i]]
     ok_idxs = [i for i in idxs if 'refused' not in gold[i]]
     seen_keys = set()
+    # members of scanned streams: pool entries that are exactly ONE message from their first to their last octet (some sample files
+    # carry a telecommunication header or hold several messages: a scan of those delivers other pieces than the entry)
+    scan_idxs = [j for j in ok_idxs if pool[j][1][:4] == b'BUFR' and int.from_bytes(pool[j][1][4:7], 'big') == len(pool[j][1])
+                 and pool[j][1].count(b'BUFR') == 1]
     try:
         # every history begins with scans that are under way AT THE SAME TIME on one decoder, with options of their own (no filter /
         # a filter that accepts nothing / one that accepts everything / metadata only): each delivers exactly its own selection
-        if len(ok_idxs) >= 2:
+        if len(scan_idxs) >= 2:
             from pybufrkit.decoder import generate_bufr_message
             dn = ['plain', 'c1', 'cn'][hno % 3]
             plans = [({}, True), (dict(filter_expr='${%edition} < 0'), False), (dict(filter_expr='${%edition} >= 0'), True),
@@ -341,7 +345,7 @@ def run_history(ctx, pool, gold, limit, hno, alts):
                 plans.reverse()
             scans = []
             for kw, delivers in plans:
-                members = [rng.choice(ok_idxs) for _ in range(2)]
+                members = [rng.choice(scan_idxs) for _ in range(2)]
                 stream = b'\r\r\n'.join(pool[j][1] for j in members)
                 scans.append([generate_bufr_message(decs[dn], stream, **kw), members if delivers else [], 0, kw])
             hist.append('four scans started on [%s] with options %r' % (dn, [sc[3] for sc in scans]))
@@ -518,7 +522,7 @@ def run_history(ctx, pool, gold, limit, hno, alts):
                 ctx.count('history_steps')
                 ctx.evaluated((hno, ctx.shard, step, tuple(hist[-3:])), True)
                 continue
-            elif r < 0.64 and ok_idxs:
+            elif r < 0.64 and scan_idxs:
                 # scans in flight: a scan over two or three pool messages is started on one of the decoders and advanced ONE
                 # message at a time, at later steps of the history, while every other kind of operation goes on in between (and
                 # some scans are never finished).  Each message it delivers is the message a brand-new interpreter decodes.
@@ -529,7 +533,7 @@ def run_history(ctx, pool, gold, limit, hno, alts):
                     if open_scans and rng.random() < 0.7:
                         dn = rng.choice(open_scans)['dn']         # several scans under way on ONE decoder
                         ctx.count('scans_started_on_a_decoder_with_a_scan_in_flight')
-                    members = [rng.choice(ok_idxs) for _ in range(rng.choice([2, 3]))]
+                    members = [rng.choice(scan_idxs) for _ in range(rng.choice([2, 3]))]
                     stream = b'\r\r\n'.join(pool[j][1] for j in members)
                     # (a scan has options of its own: a filter that accepts everything, one that accepts nothing, none)
                     fkind = rng.choice(['none', 'none', 'all', 'nothing'])
